@@ -382,6 +382,22 @@ func c20Spawn(bin, dir string, n int, spec c20Spec) (*c20ChildOut, error) {
 	cmd.Env = append(os.Environ(), "C20_CHILD_SPEC="+sp, "C20_CHILD_OUT="+op)
 	outb, err := cmd.CombinedOutput()
 	if err != nil {
+		if i := strings.Index(string(outb), "WARNING: DATA RACE"); i >= 0 {
+			rep := string(outb)[i:]
+			if len(rep) > 2500 {
+				rep = rep[:2500]
+			}
+			return nil, fmt.Errorf("DATA RACE reported by the race detector in a child process: %s", rep)
+		}
+		for _, key := range []string{"fatal error:", "panic:"} {
+			if i := strings.Index(string(outb), key); i >= 0 {
+				rep := string(outb)[i:]
+				if len(rep) > 1500 {
+					rep = rep[:1500]
+				}
+				return nil, fmt.Errorf("child process died: %s", rep)
+			}
+		}
 		return nil, fmt.Errorf("child failed: %v: %s", err, lastLines(string(outb), 30))
 	}
 	rb, err := os.ReadFile(op)
